@@ -133,6 +133,9 @@ class DefRuntime:
         if m["name"] == "__repr__":
             def f(self: Any) -> Any:  # noqa
                 return "K()"
+        if m.get("abstract"):
+            import abc
+            f = abc.abstractmethod(f)                 # re-declared abstract (an interface level in the middle of a chain)
         f._icv_own = getattr(self, "_cur_k", 0)      # the class statement that defines this function
         f.__name__ = m["name"]
         f.__qualname__ = m["name"]
